@@ -104,8 +104,21 @@ func (d *Dev) advance(c *devsim.Conn) {
 				}
 			}
 		case KSSHErr:
-			c.Emit([]byte(s.Text + d.NL))
-			d.state = StDead
+			if s.Then != "" {
+				st := c.Generated()
+				c.EmitProtected([]byte(s.Text + d.NL + s.ThenText))
+				d.Prot = append(d.Prot, [2]int{st, c.Generated()})
+				if s.Then == KShell && d.CLI != nil {
+					d.state = StShell
+					d.CLI.NoInitialPrompt = true
+					d.CLI.Start(c)
+				} else {
+					d.state = stateFor(s.Then)
+				}
+			} else {
+				c.Emit([]byte(s.Text + d.NL))
+				d.state = StDead
+			}
 			stop = true
 		case KUser, KPassword, KPassphrase:
 			if s.Uncut {
